@@ -6,6 +6,7 @@ cd /repo || exit 2
 git apply --check "$patch" || { echo "patch does not apply"; exit 2; }
 git apply "$patch"
 cd /verif
+export VERIF_EVIDENCE_DIR=/verif/run/evidence-mutant
 for p in "$@"; do
   out=$(timeout 1200 ./check run "$p" 2>&1 | grep -E "^(VIOLATION|KNOWN|C[0-9]+ tier|BUILD-FAILED|CHECK-ERROR)" | head -4)
   echo "[$p] $out"
